@@ -7,7 +7,7 @@ track representation `ATrk`).
 * `new <kind> <six> <vol>` — `create`: TMAP, TRKS entries, FNV-64 of every track buffer
 * `fmt <kind> <six> <vol> <trk>` — the formatted buffer of one track, in hex
 * `seq <kind> <six> <vol> <ops>` — ops `;`-separated: `rot:<k>` (rotate the `bit_count` bits of every track
-  left by `k`), `r:<cyl>:<head>:<sec>`, `w:<cyl>:<head>:<sec>:<hex>`; answer per op, after every write
+  left by `k`), `rott:<k>:<t1>:<t2>` (only those two tracks), `r:<cyl>:<head>:<sec>`, `w:<cyl>:<head>:<sec>:<hex>`; answer per op, after every write
   `@<FNV-64 over the FNV-64 of every track buffer>`
 -/
 namespace A2Verif.Drv.C08Trk
@@ -16,12 +16,24 @@ open A2Verif.Hex A2Verif.Model.Track A2Verif.Model.TrackImg
 def fnv64 (bs : List Nat) : UInt64 :=
   bs.foldl (fun h b => (h ^^^ b.toUInt64) * 0x100000001b3) 0xcbf29ce484222325
 
-def parseKind (s : String) : Option ImgKind :=
+/-- container variant: the three `create`d kinds, and NB2 = a created NIB cut to 6384-byte tracks and loaded
+with `Nib::from_bytes` -/
+inductive Variant
+  | plain (k : ImgKind)
+  | nb2
+
+def parseKind (s : String) : Option Variant :=
   match s with
-  | "nib" => some .nib
-  | "woz1" => some .woz1
-  | "woz2" => some .woz2
+  | "nib" => some (.plain .nib)
+  | "woz1" => some (.plain .woz1)
+  | "woz2" => some (.plain .woz2)
+  | "nb2" => some .nb2
   | _ => none
+
+def mkImage (v : Variant) (six : Bool) (vol : Nat) : Option TrackImg :=
+  match v with
+  | .plain k => some (create ATrk k six vol)
+  | .nb2 => nibFromBytes six (nb2Bytes (create ATrk .nib six vol).bytes)
 
 def flag (s : String) : Option Bool :=
   match s with
@@ -35,12 +47,26 @@ def showTErr : TErr → String
   | .invalidByte => "nib:invalid-byte"
   | .badChecksum => "nib:bad-checksum"
 
-/-- buffers of the 35 whole tracks, through the image's own track lookup -/
-def trackBufs (img : TrackImg) : List (Option (List Nat)) :=
+/-- buffers of the 35 whole tracks, through the image's own track lookup.  One pass over the byte list when
+the located offsets are increasing (they are for every layout `create`/`from_bytes` make), else slice by slice. -/
+def trackBufsSlow (img : TrackImg) : List (Option (List Nat)) :=
   (List.range 35).map fun t =>
     match locate img t with
     | .ok (off, blen, _) => some ((img.bytes.drop off).take blen)
     | _ => none
+
+def trackBufsFast : List (Nat × Nat) → Nat → List Nat → List (Option (List Nat)) → Option (List (Option (List Nat)))
+  | [], _, _, acc => some acc.reverse
+  | (off, blen) :: rest, pos, bytes, acc =>
+    if off < pos then none else
+    let b := bytes.drop (off - pos)
+    trackBufsFast rest (off + blen) (b.drop blen) (some (b.take blen) :: acc)
+
+def trackBufs (img : TrackImg) : List (Option (List Nat)) :=
+  let locs := (List.range 35).map fun t => locate img t
+  match locs.mapM (fun r => match r with | .ok (off, blen, _) => some (off, blen) | _ => none) with
+  | some ls => (trackBufsFast ls 0 img.bytes []).getD (trackBufsSlow img)
+  | none => trackBufsSlow img
 
 def digOf (b : Option (List Nat)) : UInt64 :=
   match b with
@@ -51,34 +77,36 @@ def le64 (x : UInt64) : List Nat := (List.range 8).map fun i => ((x >>> (8 * i).
 
 def combine (ds : List UInt64) : UInt64 := fnv64 (ds.map le64).flatten
 
-def handleNew (kind : ImgKind) (six : Bool) (vol : Nat) : String :=
-  let img := create ATrk kind six vol
+def handleNew (img : TrackImg) : String :=
   let ents := ",".intercalate (img.ents.map fun e => s!"{e.start}.{e.count}.{e.bitCount}")
   let digs := ",".intercalate ((trackBufs img).map fun b => toString (digOf b))
   s!"tmap:{toHex img.tmap};ents:{if ents.isEmpty then "-" else ents};off:{img.offset};len:{img.bytes.length};trk:{digs}"
 
-def handleFmt (kind : ImgKind) (six : Bool) (vol trk : Nat) : String :=
-  let (f, cap) : Fmt × Nat := match kind with
-    | .nib => (⟨six, 8, nibCap⟩, nibCap)
-    | .woz1 => (⟨six, wozSync six, woz1Cap⟩, woz1Cap)
-    | .woz2 => (⟨six, wozSync six, woz2Blocks * 512⟩, woz2Blocks * 512)
-  toHex (formatBuf ATrk f vol trk (cap * 8))
+def handleFmt (v : Variant) (six : Bool) (vol trk : Nat) : String :=
+  let (f, cap, keep) : Fmt × Nat × Nat := match v with
+    | .plain .nib => (⟨six, 8, nibCap⟩, nibCap, nibCap)
+    | .nb2 => (⟨six, 8, nibCap⟩, nibCap, nb2Cap)
+    | .plain .woz1 => (⟨six, wozSync six, woz1Cap⟩, woz1Cap, woz1Cap)
+    | .plain .woz2 => (⟨six, wozSync six, woz2Blocks * 512⟩, woz2Blocks * 512, woz2Blocks * 512)
+  toHex ((formatBuf ATrk f vol trk (cap * 8)).take keep)
 
 inductive IOp
   | rot (k : Nat)
+  | rott (k : Nat) (ts : List Nat)
   | r (c h s : Nat)
   | w (c h s : Nat) (d : List Nat)
 
 def parseIOp (s : String) : Option IOp :=
   match s.splitOn ":" with
   | ["rot", k] => do some (.rot (← k.toNat?))
+  | ["rott", k, a, b] => do some (.rott (← k.toNat?) [← a.toNat?, ← b.toNat?])
   | ["r", c, h, x] => do some (.r (← c.toNat?) (← h.toNat?) (← x.toNat?))
   | ["w", c, h, x, d] => do some (.w (← c.toNat?) (← h.toNat?) (← x.toNat?) (← ofHex d))
   | _ => none
 
 /-- rotate the `bit_count` bits of every (whole) track left by `k` -/
-def rotAll (img : TrackImg) (k : Nat) : TrackImg :=
-  (List.range 35).foldl (fun img t =>
+def rotAll (img : TrackImg) (k : Nat) (ts : List Nat := List.range 35) : TrackImg :=
+  ts.foldl (fun img t =>
     match locate img t with
     | .ok (off, blen, n) =>
       let buf := unpack ((img.bytes.drop off).take blen)
@@ -110,6 +138,10 @@ def runIOps : TrackImg → List (Option (List Nat) × UInt64) → List IOp → L
       let img' := rotAll img k
       let ds' := redig ds img'
       runIOps img' ds' rest (("@" ++ toString (combine (ds'.map (·.2)))) :: acc)
+    | .rott k ts =>
+      let img' := rotAll img k ts
+      let ds' := redig ds img'
+      runIOps img' ds' rest (("@" ++ toString (combine (ds'.map (·.2)))) :: acc)
     | .r c h s =>
       let x := readSector ATrk img c h s
       runIOps x.2 ds rest (showR x.1 :: acc)
@@ -118,16 +150,16 @@ def runIOps : TrackImg → List (Option (List Nat) × UInt64) → List IOp → L
       let ds' := redig ds x.2
       runIOps x.2 ds' rest ((showW x.1 ++ "@" ++ toString (combine (ds'.map (·.2)))) :: acc)
 
-def handleSeq (kind : ImgKind) (six : Bool) (vol : Nat) (o : String) : Option String := do
+def handleSeq (v : Variant) (six : Bool) (vol : Nat) (o : String) : Option String := do
   let ops ← if o == "-" then some [] else (o.splitOn ";").mapM parseIOp
-  let img := create ATrk kind six vol
+  let img ← mkImage v six vol
   let ds := (trackBufs img).map fun b => (b, digOf b)
   some (";".intercalate (runIOps img ds ops []))
 
 def handle (toks : List String) : String :=
   match toks with
   | ["new", k, s, v] =>
-    (do some (handleNew (← parseKind k) (← flag s) (← v.toNat?)) : Option String).getD "bad-request"
+    (do some (handleNew (← mkImage (← parseKind k) (← flag s) (← v.toNat?))) : Option String).getD "bad-request"
   | ["fmt", k, s, v, t] =>
     (do some (handleFmt (← parseKind k) (← flag s) (← v.toNat?) (← t.toNat?)) : Option String).getD "bad-request"
   | ["seq", k, s, v, o] =>
